@@ -129,8 +129,10 @@ func (k *Keys) UnmarshalJSON(b []byte) error {
 type SimulatedKeys Keys
 
 func (d SimulatedKeys) Has(key []byte, perm Permissions) bool {
-	Keys(d).Add(string(key), perm)
-	return true
+	// A key that cannot be declared by any transaction (see Keys.Add) is refused here
+	// as well, so that a simulation never succeeds where the same actions inside a
+	// transaction declaring the reported keys must fail.
+	return Keys(d).Add(string(key), perm)
 }
 
 func (d SimulatedKeys) StateKeys() Keys {
